@@ -17,6 +17,12 @@ import json
 import vlib, mgr_common as mc
 
 
+ATTR_NAMES = ["mro", "__name__", "__qualname__", "__bases__", "__mro__", "__module__", "__doc__", "__dict__", "__class__", "__hash__",
+              "__slots__", "__weakref__", "__subclasses__", "__call__", "__basicsize__", "__flags__", "__itemsize__", "__text_signature__",
+              "__abstractmethods__", "__annotations__", "__init_subclass__", "__prepare__", "__instancecheck__", "__dictoffset__",
+              "_key", "_owner", "_manager", "_value", "_expr", "_hash", "_get_value", "_tasks", "real", "imag", "x_new", "q", "T", "shape"]
+
+
 def transcript(ol, full=True):
     out = []
     for o in ol:
@@ -72,6 +78,37 @@ def run(ctx):
     cases += [mc.gen_history(ctx.rng, ["assign", "mixed"][i % 2], nofun=True, values="mixed") for i in range(ctx.pick(40, 600))]
     cases += C13.gen_cases(ctx, ctx.pick(40, 600)) + [mc.chain_case(ctx.pick(300, 2000))]
     configs = [("compiled", s) for s in range(ctx.pick(3, 12))] + [("pure", s) for s in range(ctx.pick(2, 6))]
+    # attribute assignment through a reference with names that mean something to Python's object model (members of `type`,
+    # dunder names, members of the reference classes).  Names that are members of the reference object itself are the
+    # known finding ref-member-attribute (the runner reports `in_dir`); every other name must behave identically.
+    acases = []
+    for i in range(ctx.pick(60, 800)):
+        c = mc.gen_history(ctx.rng, "assign", nops=ctx.rng.randint(2, 6), nofun=True)
+        for _ in range(ctx.rng.randint(1, 3)):
+            owner = ctx.rng.choice([["g"], ["g"], ["c", ["i", "n"]], ["c"]])
+            name = ctx.rng.choice(ATTR_NAMES)
+            val = ctx.rng.choice([ctx.rng.randint(-9, 9), ["bin", "+", ["ref", ["g", ["a", "q"]]], ["const", 1]]])
+            c["ops"].insert(ctx.rng.randint(0, len(c["ops"])), ["setattr_raw", owner, name, val])
+        c["ops"].append(["set", ["g", ["a", "q"]], ["plain", ctx.rng.randint(-9, 9)], "item"])
+        acases.append(c)
+    aruns = {cfg: mc.run_impl_cases(acases, build=cfg[0], hashseed=cfg[1], opts={"stop_in_dir": True}) for cfg in (configs[0], configs[-1], ("pure", 0))}
+    afail = []
+    for i, c in enumerate(acases):
+        cut = min(next((j for j, o in enumerate(ol[i]) if o.get("in_dir")), len(c["ops"])) for ol in aruns.values())
+        ts = {cfg: transcript(ol[i][:cut]) for cfg, ol in aruns.items()}
+        t0 = ts[configs[0]]
+        for cfg, t in ts.items():
+            if t != t0 and not afail:
+                k = next(j for j, (x, y) in enumerate(zip(t0, t)) if x != y)
+                afail.append((i, k, f"attribute assignment through a reference behaves differently on {configs[0]} and {cfg}: "
+                                    f"{json.dumps(t0[k])[:300]} vs {json.dumps(t[k])[:300]}"))
+    ctx.obligations.append(("identical transcripts for attribute assignments with object-model names (members of the reference object excepted: known finding)",
+                            not afail, f"{len(afail)} differing programs of {len(acases)}"))
+    ctx.cov["attribute_name_programs"] = {"programs": len(acases), "names": len(ATTR_NAMES),
+                                          "cut_by_known_finding": sum(1 for i in range(len(acases)) if any(o.get("in_dir") for o in aruns[configs[0]][i]))}
+    if afail:
+        i, k, what = afail[0]
+        vlib.violation(ctx, {"kind": "oracle", "what": what, "case": dict(acases[i], ops=acases[i]["ops"][:k + 1])})
     runs = {}
     for b, sd in configs:
         runs[(b, sd)] = mc.run_impl_cases(cases, build=b, hashseed=sd)
